@@ -77,6 +77,8 @@ type RunOpts struct {
 	OnOuts func(outs []*ConvOut)
 	// MaxSteps bounds the scheduler (default 200000).
 	MaxSteps int
+	// Tick: virtual time that passes at every quiescent point of the schedule (0 = none)
+	Tick time.Duration
 }
 
 // RunConvs executes all conversations concurrently in one bubble.
@@ -135,6 +137,7 @@ func RunConvs(t *testing.T, convs []Conv, o RunOpts) (outs []*ConvOut, tap []Ev,
 		}
 		w := NewWorld(o.Topo, svc, o.SOpts, o.DOpts)
 		sched = NewSched()
+		sched.Tick = o.Tick
 		for _, l := range w.Links {
 			sched.AddLink(l)
 			// delayed delivery (not blocked Write calls): goat holds mutexes
